@@ -37,7 +37,7 @@ OPSET_VERS = [17, 18, 19, 20, 21]
 
 _GDT = {"f32": np.float32, "f64": np.float64, "i64": np.int64}
 
-UNARY = ["neg", "abs", "relu", "identity", "rmax"]
+UNARY = ["neg", "abs", "relu", "identity", "rmax", "split0"]
 BINARY = ["add", "sub", "mul"]
 BOOL1 = ["not"]
 BOOL2 = ["and", "or"]
@@ -85,6 +85,13 @@ def _apply_op(name, ver, ins):
         return op.and_(*ins)
     if name == "or":
         return op.or_(*ins)
+    if name == "split0":  # x + x[0] + x[1] through Split (13 -> 18: `num_outputs` became mandatory without `split`)
+        (x,) = ins
+        if ver == 17:
+            a, b = op.split(x, outputs_count=2)
+        else:
+            a, b = op.split(x, num_outputs=2)
+        return op.add(op.add(x, a), b)
     if name == "pos":  # scalar bool: is the first element positive?
         (x,) = ins
         first = op.gather(x, op.constant(value=np.array(0, np.int64)))
@@ -185,7 +192,7 @@ class Realiser:
         params = ", ".join(f"a{i}" for i in range(nin))
         ns = {"body": body}
         exec(f"def pyfun({params}):\n    return body({params})\n", ns)  # noqa: S102
-        f = to_function(fs["name"], fs["domain"])(ns["pyfun"])
+        f = to_function(fs["name"], fs["domain"], _version=fs.get("version", 0))(ns["pyfun"])
         self.fn_cache[fi] = f
         return f
 
@@ -360,6 +367,9 @@ def _np_op(name, ins):
         return np.logical_and(*ins)
     if name == "or":
         return np.logical_or(*ins)
+    if name == "split0":
+        x = np.asarray(ins[0])
+        return x + x[0:1] + x[1:2]
     if name == "pos":
         return np.array(bool(np.asarray(ins[0]).reshape(-1)[0] > 0))
     if name == "binarize":
@@ -656,13 +666,13 @@ def walk_named(named):
     definition.
     """
     problems = []
-    defs: dict[str, int] = {}
-    node_names: dict[str, int] = {}
+    defs: dict[str, list] = {}        # value name -> paths of the graphs that define it
+    node_names: dict[str, list] = {}  # node name  -> paths of the graphs that hold such a node
 
-    def define(n):
-        defs[n] = defs.get(n, 0) + 1
+    def define(n, path):
+        defs.setdefault(n, []).append(path)
 
-    def walk(g, visible):
+    def walk(g, visible, path):
         vis = set(visible)
         entry = list(dict.fromkeys(g["inputs"]))
         if len(entry) != len(g["inputs"]):
@@ -673,31 +683,37 @@ def walk_named(named):
             if n == "":
                 problems.append("empty-graph-input")
                 continue
-            define(n)
+            define(n, path)
             vis.add(n)
-        for nd in g["nodes"]:
+        for k, nd in enumerate(g["nodes"]):
             if nd["name"]:
-                node_names[nd["name"]] = node_names.get(nd["name"], 0) + 1
+                node_names.setdefault(nd["name"], []).append(path)
             for i in nd["ins"]:
                 if i and i not in vis:
                     problems.append(f"use-before-def:{i}@{nd['name'] or nd.get('op', '?')}")
-            for sg in nd["subs"]:
-                walk(sg, vis)
+            for j, sg in enumerate(nd["subs"]):
+                walk(sg, vis, path + ((k, j),))
             for o in nd["outs"]:
                 if o:
-                    define(o)
+                    define(o, path)
                     vis.add(o)
         for o in g["outputs"]:
             if o not in vis:
                 problems.append(f"undefined-output:{o}")
 
-    walk(named, set())
-    for n, c in defs.items():
-        if c > 1:
-            problems.append(f"dup-value:{n}")
-    for n, c in node_names.items():
-        if c > 1:
-            problems.append(f"dup-node-name:{n}")
+    def only_in_sibling_graphs(paths):
+        """every two definition sites lie in different graphs neither of which encloses the other"""
+        def nested(p, q):
+            return p[:len(q)] == q or q[:len(p)] == p
+        return all(not nested(p, q) for i, p in enumerate(paths) for q in paths[i + 1:])
+
+    walk(named, set(), ())
+    for n, ps in defs.items():
+        if len(ps) > 1:
+            problems.append(f"dup-value{'-in-sibling-bodies' if only_in_sibling_graphs(ps) else ''}:{n}")
+    for n, ps in node_names.items():
+        if len(ps) > 1:
+            problems.append(f"dup-node-name{'-in-sibling-bodies' if only_in_sibling_graphs(ps) else ''}:{n}")
     return problems
 
 
@@ -823,7 +839,7 @@ def judge_model(m, want_ort=True, custom_keys=()):
             # onnxruntime's support for (nested) functions is incomplete: a model with functions that ORT
             # refuses but the ONNX reference runtime loads is recorded as runtime-unsupported, not a failure
             ok_ref = False
-            if len(m.functions) and not bad:
+            if len(m.functions):
                 ok_ref, _ = reference_loads(m)
             if ok_ref:
                 ORT_UNSUPPORTED.append(str(e)[:120])
@@ -894,8 +910,12 @@ class Gen:
         self.generics: list[dict] = []
 
     # -- helpers
-    def ver(self):
-        if self.feat["mixed"] and self.rng.random() < 0.35:
+    def ver(self, in_func=True):
+        # "newer_only_in_funcs": outside function bodies everything is v17, so that the newest opset of the
+        # model is required only by function bodies
+        if self.feat.get("newer_only_in_funcs") and not in_func:
+            return 17
+        if self.feat["mixed"] and self.rng.random() < (0.6 if self.feat.get("newer_only_in_funcs") else 0.35):
             return self.rng.choice(OPSET_VERS)
         return 17
 
@@ -933,11 +953,17 @@ class Gen:
                 types.append("f")
             elif r < 0.40:
                 if rng.random() < 0.5:
-                    names = UNARY if self.feat["rmax"] else [u for u in UNARY if u != "rmax"]
+                    names = UNARY if self.feat["rmax"] else [u for u in UNARY if u not in ("rmax", "split0")]
                     name = rng.choice(names)
-                    stmts.append(["op", name, self.ver(), [self.pick(types, "f")]])
+                    if self.feat.get("newer_only_in_funcs") and not in_func and depth > 0 and rng.random() < 0.6:
+                        name = "split0"  # a node whose un-adapted form still passes the basic checker, in a body
+                    if name == "split0" and self.feat.get("newer_only_in_funcs"):
+                        stmts.append(["op", name, 17, [self.pick(types, "f")]])
+                        types.append("f")
+                        continue
+                    stmts.append(["op", name, self.ver(in_func), [self.pick(types, "f")]])
                 else:
-                    stmts.append(["op", rng.choice(BINARY), self.ver(),
+                    stmts.append(["op", rng.choice(BINARY), self.ver(in_func),
                                   [self.pick(types, "f"), self.pick(types, "f")]])
                 types.append("f")
             elif r < 0.47:
@@ -955,7 +981,7 @@ class Gen:
                 nout = rng.choice([1, 1, 2])
                 tb = self.gen_body(types, [], rng.randrange(0, 4), nout, depth + 1, in_func)
                 eb = self.gen_body(types, [], rng.randrange(0, 4), nout, depth + 1, in_func)
-                stmts.append(["if", self.pick(types, "b"), tb, eb, self.ver() if rng.random() < 0.3 else 17])
+                stmts.append(["if", self.pick(types, "b"), tb, eb, self.ver(in_func) if rng.random() < 0.3 else 17])
                 types.extend(["f"] * nout)
             elif r < 0.72 and self.feat["loop"] and depth < 3:
                 ns = rng.choice([1, 1, 2])
@@ -989,7 +1015,7 @@ class Gen:
                 stmts.append(call)
                 types.extend(["f"] * fs["nout"])
             else:
-                stmts.append(["op", rng.choice(BINARY), self.ver(),
+                stmts.append(["op", rng.choice(BINARY), self.ver(in_func),
                               [self.pick(types, "f"), self.pick(types, "f")]])
                 types.append("f")
         return stmts
@@ -1091,6 +1117,10 @@ class Gen:
             if others:
                 o = rng.choice(others)
                 self.funcs[idx]["name"], self.funcs[idx]["domain"] = o["name"], o["domain"]
+                if rng.random() < 0.6:  # "old and new revision of a helper": another declared version
+                    self.funcs[idx]["version"] = rng.choice([1, 2, 3])
+                    if rng.random() < 0.3:
+                        o["version"] = rng.choice([1, 2])
                 if rng.random() < 0.5:  # ... with the very same body: a legitimate merge
                     self.funcs[idx]["body"] = copy.deepcopy(o["body"])
         return idx
@@ -1131,8 +1161,16 @@ class Gen:
             tn = [[rng.choice(["Neg", "Abs"]), rng.choice(["t0", ""]), [a], ["tv"]]]
             en = [[rng.choice(["Relu", "Identity"]), rng.choice(["e0", ""]), [b], ["ev0"]],
                   ["Add", "e1", ["ev0", a], ["ev"]]]
+            tout, eout = "tv", "ev"
+            if self.feat.get("inline_sibling_names") and rng.random() < 0.5:
+                # valid ONNX: the two branches are separate scopes, so they may use the same names
+                for nd_ in en:
+                    nd_[3] = ["tv" if o == "ev" else o for o in nd_[3]]
+                eout = "tv"
+                if tn[0][1]:
+                    en[-1][1] = tn[0][1]
             out = f"v{len(vals)}"
-            nodes.append(["If", rng.choice(["if0", ""]), [cond], [out], [tn, "tv", en, "ev"]])
+            nodes.append(["If", rng.choice(["if0", ""]), [cond], [out], [tn, tout, en, eout]])
             vals.append(out)
         nout = rng.choice([1, 1, 2])
         outs = rng.sample(vals[nin:], min(nout, len(vals) - nin))
@@ -1160,6 +1198,28 @@ class Gen:
         types = list(args)
         n = size if size is not None else rng.randrange(2, 9)
         stmts = self.gen_stmts(types, n, 0)
+        forced = []
+        if self.feat.get("newer_only_in_funcs") and self.feat["func"]:
+            # the model's newest opset is required only inside a function body that is called at top level,
+            # while a body graph holds a v17 node whose un-adapted form still passes the basic checker
+            fidx = len(self.funcs)
+            self.funcs.append({"name": f"fn{fidx}", "domain": rng.choice(["spox.function", "dom.a"]), "nin": 1,
+                               "nout": 1, "body": {"stmts": [["op", rng.choice(["identity", "neg", "abs"]),
+                                                              rng.choice([18, 19, 20, 21]), [0]]], "outs": [1]}})
+            stmts.append(["call", fidx, [self.pick(types, "f")]])
+            types.append("f")
+            forced.append(len(types) - 1)
+            src = self.pick(types, "f")
+            if "b" in types and rng.random() < 0.6:
+                stmts.append(["if", self.pick(types, "b"),
+                              {"stmts": [["op", "split0", 17, [src]]], "outs": [len(types)]},
+                              {"stmts": [], "outs": [src]}, 17])
+            else:
+                base = len(types)
+                stmts.append(["loop", rng.randrange(1, 3), [src],
+                              {"stmts": [["op", "split0", 17, [base + 2]]], "outs": [base + 3]}, 17])
+            types.append("f")
+            forced.append(len(types) - 1)
         fs = [i for i, t in enumerate(types) if t == "f" and i >= len(args)]
         if not fs:
             stmts.append(["op", "neg", 17, [self.pick(types, "f")]])
@@ -1167,7 +1227,7 @@ class Gen:
             fs = [len(types) - 1]
         nout = rng.choice([1, 1, 2, 3])
         outs = [rng.choice(fs[-3:]) if rng.random() < 0.6 else rng.choice(fs) for _ in range(nout)]
-        outs = list(dict.fromkeys(outs))
+        outs = list(dict.fromkeys(outs + forced))
         spec = {
             "args": args,
             "inputs": [[f"x{i}", i] for i in range(len(args))],
